@@ -1993,7 +1993,7 @@ static void fam_ww_naf(void)
 				naf_line(a.v, n, w, c2);
 			}
 		}
-		for (t = 0; t < (THOROUGH ? 4u : 2u); ++t) { mkshape(&a, n, S_RAND); snprintf(c2, sizeof(c2), "w=%u,a=rand", (unsigned)w); naf_line(a.v, n, w, c2); }
+		for (t = 0; t < (THOROUGH ? 4u : 2u); ++t) { mkshape(&a, n, n == 1 ? 8 : S_RAND); snprintf(c2, sizeof(c2), "w=%u,a=rand", (unsigned)w); naf_line(a.v, n, w, c2); }
 	}
 }
 
